@@ -43,6 +43,15 @@ class ATerm(AObj):
     def __rmod__(self, o):
         return ATerm(('binop', '%', _t(o), self.t))
 
+    def _bin(op):
+        return (lambda self, o: ATerm(('binop', op, self.t, _t(o)))), (lambda self, o: ATerm(('binop', op, _t(o), self.t)))
+    __add__, __radd__ = _bin('+')
+    __sub__, __rsub__ = _bin('-')
+    __mul__, __rmul__ = _bin('*')
+    __floordiv__, __rfloordiv__ = _bin('//')
+    __and__, __rand__ = _bin('&')
+    del _bin
+
     def __repr__(self):
         return f'<term {show(self.t)}>'
 
@@ -259,6 +268,7 @@ def run(ctx):
     ctx.rule('C03.R6', 'raise sites of the private _BeartypeCallHintPepRaise* classes under beartype/_check/error and '
              'in hinttreeerror are enumerated against the reviewed table (one reason each); a new site is reported')
     n = 0
+    seen_sites = {}
     for mn, m in sorted(ctx.repo.modules.items()):
         if not (mn.startswith('beartype._check.error') or mn.endswith('hinttreeerror')):
             continue
@@ -275,8 +285,10 @@ def run(ctx):
                     g = ' '.join(_guards(node, fn))
                     tag = 'desync' if 'Desynchronization' in nm else ('both' if 'is not None' in g.split(' and ')[-1] else 'neither')
                     key = f'{key}#{tag}'
-                ctx.ob('C03.R6', f'private-raise:{key}', m.where(node),
-                       'private exception raise site on the explanation path is a reviewed one', key in T3,
+                seen_sites[key] = seen_sites.get(key, 0) + 1
+                ctx.ob('C03.R6', f'private-raise:{key}' + (f'#{seen_sites[key]}' if seen_sites[key] > 1 else ''), m.where(node),
+                       'private exception raise site on the explanation path is a reviewed one (one site per '
+                       'reviewed function and guard)', key in T3 and seen_sites[key] == 1,
                        f'unreviewed raise of {nm} under `{" and ".join(_guards(node, fn))[:160]}`')
     ctx.floor('C03.R6', n, 8, 'private raise sites')
 
